@@ -106,7 +106,7 @@ def main():
              "kind_free_text": "Rust binary driving proptest 1.11 strategies, exhaustive enumerators and a parallel statistical driver against independent oracles (double-double arithmetic, exact integer models, reference models); shrinks failures to replay files"},
         ],
         "checks": checks,
-        "notes": "bin/check <ID> <tier> rebuilds harness + /repo working tree, runs regress/<ID>/*.json replays first, then generated cases; VERIF_SEED selects the PRNG stream. Exit 2 = inconclusive (never a violation).",
+        "notes": "bin/check <ID> <tier> rebuilds harness + /repo working tree, runs regress/<ID>/*.json replays first, then generated cases; VERIF_SEED selects the PRNG stream. Exit 2 = inconclusive (watchdog of the whole run, failed oracle self-test, fuzz build or time-out problems) and is never a violation; the one exception to 'time is not a verdict' is a single library call or history that does not come back (C03: 30 s without progress, C18: 45 s twice), which is reported as a violation with its replay file.",
         "not_applicable": na,
     }
     json.dump(m, open(os.path.join(ROOT, "MANIFEST.json"), "w"), indent=1)
